@@ -19,6 +19,11 @@ pub async fn load_row_id_sequence(
     fragment: &Fragment,
 ) -> Result<Arc<RowIdSequence>> {
     // Virtual path to prevent collisions in the cache.
+    let data_file = fragment
+        .files
+        .first()
+        .map(|f| f.path.clone())
+        .unwrap_or_default();
     match &fragment.row_id_meta {
         None => Err(Error::Internal {
             message: "Missing row id meta".into(),
@@ -28,6 +33,7 @@ pub async fn load_row_id_sequence(
             let data = data.clone();
             let key = RowIdSequenceKey {
                 fragment_id: fragment.id,
+                data_file: data_file.as_str(),
             };
             dataset
                 .metadata_cache
@@ -39,6 +45,7 @@ pub async fn load_row_id_sequence(
             let dataset_clone = dataset.clone();
             let key = RowIdSequenceKey {
                 fragment_id: fragment.id,
+                data_file: data_file.as_str(),
             };
             dataset
                 .metadata_cache
